@@ -7,7 +7,7 @@
 From Coq Require Import List ZArith NArith Bool.
 From Coq.Strings Require Import Byte.
 Import ListNotations.
-From SV Require Import Text C05_Model G_gc_ids G_c07_tabs C07_Model C07_Lemmas C07_Spec C07_Tables C07_Main.
+From SV Require Import Text C05_Model G_gc_ids G_c07_tabs C07_Model C07_Lemmas C07_Spec C07_Tables C07_Gaps C07_Wrap C07_Main.
 
 (* RNA is translated like DNA *)
 Theorem C07_tu_equiv : forall t o l, translate t o (u2t l) = translate t o l.
@@ -113,6 +113,72 @@ Theorem C07_shipped_tables : map fst tabs = json_ids /\
 Proof. exact (conj tabs_keys gap_sym_ok_shipped). Qed.
 Print Assumptions C07_shipped_tables.
 
+(* final_stop controls ONLY whether the terminal stop symbol is written: with any final_stop the result is the result for
+   final_stop=False (same error, same symbols) plus, iff final_stop, the symbol of the stop codon that ended the translation *)
+Theorem C07_final_stop_only : forall t o l, gap_after_ok o = true -> gapfree o (u2t l) = true ->
+  translate t o l = match translate t (with_final_stop false o) l with
+                    | Err e => Err e
+                    | Ok a => Ok (a ++ if eff_final_stop o then end_stop t o (codons (u2t l)) else [])
+                    end.
+Proof. exact final_stop_only. Qed.
+Print Assumptions C07_final_stop_only.
+
+(* every bundled table id resolves (as in gcode(tt)) to one of the tables the per-table theorems are about *)
+Theorem C07_every_table : forall k, In k json_ids -> exists t, lookup_tab k tabs = Some t /\ In (k, t) tabs.
+Proof. exact every_table. Qed.
+Print Assumptions C07_every_table.
+
+(* ---- gap characters ONLY add gap symbols, exactly placed.
+   emits o g   : the g-th gap character (g = 1, 2, ...) writes a gap symbol iff g = gap_after + 3j
+   marks o 0 0 l : per codon of the degapped input (plus one entry for what follows the last complete codon) the number of
+                 emitting gap characters met while that codon was being read
+   spec_go_g   : the codon-level specification spec_go with (marks) gap symbols written before each codon's symbol.
+   For EVERY input (no alphabet or table hypothesis) the loop equals that specification: *)
+Theorem C07_gap_placement : forall t o l, gap_after_ok o = true -> translate t o l = spec_translate_g t o (u2t l).
+Proof. exact gap_placement. Qed.
+Print Assumptions C07_gap_placement.
+
+(* removing the gap symbols of the gapped specification gives exactly the gap-free specification *)
+Theorem C07_gap_spec_degap : forall t o, gap_sym_ok t o = true ->
+  forall cs ms, res_degap o (spec_go_g t o cs ms) = spec_go t o cs.
+Proof. exact spec_go_g_degap. Qed.
+Print Assumptions C07_gap_spec_degap.
+
+(* how many: the marks add up to ecount (0 below gap_after gap characters, then (G - gap_after) / 3 + 1), one entry per codon + 1 *)
+Theorem C07_gap_marks : forall o l, gap_after_ok o = true ->
+  Z.of_nat (sum_nat (marks o 0 0 l)) = ecount o (count_gap o l) /\
+  length (marks o 0 0 l) = S (length (codons (degap_in o l))).
+Proof. exact (fun o l H => conj (gap_marks_total o l H) (gap_marks_length o l)). Qed.
+Print Assumptions C07_gap_marks.
+
+(* a run that is not cut short (no stop codon, no stop check, start accepted) writes exactly ecount(number of gap characters)
+   gap symbols: one after the first gap_after gap characters, then one per three *)
+Theorem C07_gap_count : forall t o gc l, gap_after_ok o = true -> o_gap o = Some gc -> gap_sym_ok t o = true ->
+  o_check_stop o = false -> started t o (codons (degap_in o (u2t l))) = true ->
+  forallb (fun c => negb (is_stop t c)) (codons (degap_in o (u2t l))) = true ->
+  exists out, translate t o l = Ok out /\ count_gap o out = ecount o (count_gap o (u2t l)).
+Proof. exact gap_count. Qed.
+Print Assumptions C07_gap_count.
+
+(* ---- wrappers. BioSeq.translate: data becomes the translation and the type becomes aa; an error leaves no result *)
+Theorem C07_bioseq_translate : forall t o q,
+  (forall q', bioseq_translate t o q = inl q' <-> (translate t o (b_data q) = Ok (b_data q') /\ b_type q' = AA)) /\
+  (forall e, bioseq_translate t o q = inr e <-> translate t o (b_data q) = Err e).
+Proof. exact bioseq_translate_spec. Qed.
+Print Assumptions C07_bioseq_translate.
+
+(* BioBasket.translate: length kept; without error every sequence is translated; with an error the sequences before the
+   failing one are translated, the failing one and all later ones are unchanged *)
+Theorem C07_basket_translate : forall t o b,
+  length (fst (basket_translate t o b)) = length b /\
+  match snd (basket_translate t o b) with
+  | None => Forall2 (fun q q' => bioseq_translate t o q = inl q') b (fst (basket_translate t o b))
+  | Some e => exists p p' q rest, b = p ++ q :: rest /\ fst (basket_translate t o b) = p' ++ q :: rest /\
+                Forall2 (fun x x' => bioseq_translate t o x = inl x') p p' /\ bioseq_translate t o q = inr e
+  end.
+Proof. exact basket_translate_spec. Qed.
+Print Assumptions C07_basket_translate.
+
 (* non-vacuity: a gapped RNA string with an ambiguous stop codon in the domain, standard table, default options;
    and the F10 witness (gaps after the last stop codon, complete=True, final_stop=False) *)
 Example C07_witness :
@@ -125,3 +191,11 @@ Example C07_witness :
   translate tab_1 (mk_opts false None true None "X"%byte None None) (bs "ATGTAAAAA"%bs) = Err EStopNotLast /\
   started tab_1 (mk_opts false None false None "X"%byte None None) (codons (bs "AAATAA"%bs)) = false.
 Proof. exact (conj eq_refl (conj eq_refl (conj eq_refl (conj eq_refl (conj eq_refl eq_refl))))). Qed.
+
+(* nine gap characters, gap_after = 2: the 2nd, 5th and 8th write a gap symbol, one before each codon's symbol and one at the end *)
+Example C07_witness_gaps :
+  marks (mk_opts true (Some false) false None "X"%byte (Some "-"%byte) (Some 2%Z)) 0 0 (bs "A-T--G---AA-A--"%bs) = [1; 1; 1]%nat /\
+  translate tab_1 (mk_opts true (Some false) false None "X"%byte (Some "-"%byte) (Some 2%Z)) (bs "A-T--G---AA-A--"%bs)
+    = Ok (bs "-M-K-"%bs) /\
+  ecount (mk_opts true (Some false) false None "X"%byte (Some "-"%byte) (Some 2%Z)) 9 = 3%Z.
+Proof. exact (conj eq_refl (conj eq_refl eq_refl)). Qed.
